@@ -4,7 +4,7 @@ c11_tie = importlib.util.module_from_spec(_spec); _spec.loader.exec_module(c11_t
 T = "GeomV.C11."
 CFG = {
     "id": "C11",
-    "lean_modules": ["GeomV.C11.Proofs", "GeomV.C11.ProofsArith", "GeomV.C11.ProofsFill"] + c11_tie.C11_TIES,
+    "lean_modules": ["GeomV.C11.Proofs", "GeomV.C11.ProofsArith", "GeomV.C11.ProofsFill", "GeomV.C11.ProofsHeap"] + c11_tie.C11_TIES,
     "exe": "geomv_c11",
     "go_cmd": "c11",
     "stages": ["go:gen", "go:impl", "lean:judge"],
@@ -16,6 +16,9 @@ CFG = {
         "C11_anyArith_inRange", "C11_heurA_rat", "C11_reachable_anyArith", "C11_chooseNode_old_defect", "C11_chooseEntryOld_eq_new_rat",
         # phase 3: what holds of the minimum fill; sharpness of the parameter hypotheses (NewTree validates nothing)
         "C11_fill", "C11_fill_reachable", "C11_minfill_not_invariant", "C11_maxC_ge2_needed", "C11_minC_ge1_needed",
+        # wave 2: the POINTER-LEVEL model (Heap.lean: arena of nodes, stored parent fields, nil dereferences as faults, fuel recursion)
+        # refines the functional model
+        "Heap.C11_heap_search_refines", "Heap.C11_heap_findLeaf_refines",
         # T1: definitions regenerated from index/rtree/{geom,rtree}.go of the tree under test = the model's
         "C11_tie_size", "C11_tie_margin", "C11_tie_containsPoint", "C11_tie_containsRect", "C11_tie_intersect",
         "C11_tie_enlarge", "C11_tie_initBoundingBox", "C11_tie_boundingBox", "C11_tie_computeBoundingBox",
@@ -30,6 +33,10 @@ CFG = {
         "control-skeleton tie: harness/cmd/c11/skeleton.go prints the conditions, loop kinds, calls, returns/breaks and the assignments "
         "to height/size/root/parent/level/leaf/entries of every structural function (and the fields of Rtree/node/entry) and the "
         "run compares it with harness/cmd/c11/skeleton.expected, the text the hand-written model was transcribed from",
+        "pointer-level model lean/GeomV/C11/Heap.lean (hand-written statement by statement from the skeleton text; arena of nodes with stored parent "
+        "fields) is run by the judge next to the functional model on every exact history of <= 400 operations with coordinates below 2^70: no fault, "
+        "erase(arena) = functional tree, same Delete result/Size/Depth, parent audit on the arena; ProofsHeap.lean proves that its searchIntersect and "
+        "findLeaf refine the functional model",
         "Lean 4.33.0 kernel; axioms of every theorem printed by #print axioms must be within {propext, Classical.choice, Quot.sound}",
         "model lean/GeomV/C11/Model.lean (functional tree with the stored fields of the Go structs; parent links = recursion path; "
         "findLeaf + entry removal + condenseTree's upward loop fused into one recursion `delIn`) is tied to /repo/index/rtree/rtree.go "
@@ -59,6 +66,8 @@ CFG = {
             "Phase 3: extreme coordinate units 2^-1000..2^900 incl. mixed magnitudes (areas overflow to +Inf / NaN differences / underflow to 0; judged by the Spec only), "
             "fan-outs 66..130 (nodes with more than 64 and 128 entries), all three object kinds in one tree; the query batch of a step is asked first and rendered afterwards, "
             "query box objects are reused across steps, returned slices are overwritten. "
+            "Wave 2: fan*-specOnly (points (2^-i,2^-i), (min,max) in {(2,130),(1,129),(2,200)} + thorough {(3,140),(1,300)}: a root with 126..150 children crossing 128/129/130 "
+            "and its split in reported steps, deletes below root entries with index >= 128); a shadow tree built before every history is re-dumped after it. "
             "One case = one history (every step judged); distinct = distinct history line; class = phase-kind-params-max height reached",
     "timeout": {"quick": 900, "thorough": 3000},
     "explanation": "SPEC verdicts are computed from Spec.lean on the implementation's own dump and answers (wfNode, Size, stored "
